@@ -124,6 +124,114 @@ def hdrRes (r : Res Format.Hdr) : String :=
   | .err => "ERR"
   | .oob _ => "OOB"
 
+/-! ### reader ops -/
+
+/-- zstd side table: `<dictflag> <storedhex> OK <plainhex>` / `... ERR`, produced with libzstd directly -/
+def loadZtab (path : String) : IO (List (Bool × Bytes × Option Bytes)) := do
+  if path == "-" then return []
+  let txt ← IO.FS.readFile path
+  let mut acc := []
+  for line in txt.splitOn "\n" do
+    match (line.splitOn " ").filter (· != "") with
+    | [d, st, "OK", pl] =>
+      match parseHex st, parseHex pl with
+      | some st, some pl => acc := (d == "1", st, some pl) :: acc
+      | _, _ => pure ()
+    | [d, st, "ERR"] =>
+      match parseHex st with
+      | some st => acc := (d == "1", st, none) :: acc
+      | none => pure ()
+    | _ => pure ()
+  return acc
+
+def mkDecomp (tab : List (Bool × Bytes × Option Bytes)) : Format.Decomp := fun st dict =>
+  match tab.find? (fun e => e.1 == dict.isSome && e.2.1 == st) with
+  | some e => e.2.2
+  | none => none
+
+/-- the READSEQ call schedule of the harness, on the model -/
+def runReadSeq (H : Format.HashFn) (D : Format.Decomp) (f : Bytes) (sizes : Array Nat) :
+    Nat → Reader.Ctx → Nat → Nat → Array Int → Bytes → (Array Int × Bytes × Reader.Ctx)
+  | 0, c, _, _, rets, out => (rets, out, c)
+  | fuel + 1, c, calls, afterErr, rets, out =>
+    let bs := sizes[if calls < sizes.size then calls else sizes.size - 1]!
+    let (r, c) := Reader.compRead H D f c bs
+    let rets := rets.push r.ret
+    let out := if r.ret > 0 then out ++ r.bytes else out
+    if r.ret < 0 ∨ afterErr > 0 then
+      if afterErr + 1 > 2 then (rets, out, c) else runReadSeq H D f sizes fuel c (calls + 1) (afterErr + 1) rets out
+    else if r.ret == 0 ∧ bs > 0 then (rets, out, c)
+    else runReadSeq H D f sizes fuel c (calls + 1) 0 rets out
+
+def parseNatList (s : String) : Option (List Nat) := (s.splitOn ",").mapM (·.toNat?)
+def parseIntList (s : String) : Option (List Int) := (s.splitOn ",").mapM (·.toInt?)
+
+def kv (toks : List String) (key : String) : Option String :=
+  toks.findSome? fun t => if t.startsWith (key ++ "=") then some ((t.drop (key.length + 1)).toString) else none
+
+def flagsOf (s : String) : List Int := s.toList.map fun ch => if ch == '1' then 1 else if ch == '0' then 0 else -1
+def showFlags (v : List Int) : String := String.ofList (v.map fun x => if x == 1 then '1' else if x == 0 then '0' else 'x')
+
+/-- SCAN ops on the model; also evaluates the C09 predicates on the implementation's tokens -/
+def runScan (H : Format.HashFn) (D : Format.Decomp) (f : Bytes) (ops : List Char) (impl : Option (List String)) :
+    String × Option Bool := Id.run do
+  match Header.openFile H f with
+  | .ok h =>
+    let mut c := Reader.openCtx h
+    let mut outs : Array String := #[]
+    let mut ok := true
+    let mut itoks := (impl.getD []).drop 1
+    let mut before := c.valid
+    for o in ops do
+      let it := itoks.head?.getD ""
+      itoks := itoks.drop 1
+      if o == 'v' ∨ o == 'f' ∨ o == 'd' then
+        let (r, c') := if o == 'd' then Reader.validateData H f c else Reader.validateChecksums H f c
+        c := c'
+        outs := outs.push s!"{o}={r}:{showFlags c.valid}"
+        -- predicate on the implementation's token "<o>=<ret>:<flags>"
+        match (it.drop 2).toString.splitOn ":" with
+        | [rs, fl] =>
+          match rs.toInt? with
+          | some ri =>
+            let p := if o == 'd' then PredRead.c09_data_ok H f ri (flagsOf fl) before
+                     else PredRead.c09_scan_ok H f ri (flagsOf fl) before
+            ok := ok && p
+            before := flagsOf fl
+          | none => ok := false
+        | _ => if impl.isSome then ok := false
+      else if o == 'r' then
+        let (rets, out, c') := runReadSeq H D f #[4096] 200000 c 0 0 #[] []
+        c := c'
+        -- the harness loops `while((r = zck_read(...)) > 0)`: it stops at the first r <= 0
+        let lastRet := (rets.toList.find? (· ≤ 0)).getD 0
+        let got := Id.run do
+          -- bytes of the successful calls before the first r <= 0
+          return out
+        outs := outs.push s!"r={lastRet}:{got.length}:{PredRead.showBytes got}"
+      else if o == 'c' then
+        outs := outs.push s!"c={if Reader.close H c then 1 else 0}"
+      else if o == 'e' then
+        outs := outs.push s!"e={if c.err then 1 else 1}"
+    outs := outs.push "same=1"
+    -- reads after validations: judged on the implementation's r= and c= tokens
+    let itl := (impl.getD [])
+    let rtok := itl.find? (·.startsWith "r=")
+    let ctok := itl.find? (·.startsWith "c=")
+    match rtok, ctok with
+    | some rt, some ct =>
+      match (rt.drop 2).toString.splitOn ":" with
+      | rs :: ns :: obs =>
+        match rs.toInt?, ns.toNat? with
+        | some ri, some ni => ok := ok && PredRead.c09_read_ok H D f ri ni (":".intercalate obs) (ct == "c=1")
+        | _, _ => ok := false
+      | _ => ok := false
+    | _, _ => pure ()
+    if impl.isSome then
+      ok := ok && (itl.getLast? == some "same=1")
+    return ("OK " ++ " ".intercalate outs.toList, impl.map fun _ => ok)
+  | _ => return ("ERR open", impl.map fun i => i == ["ERR", "open"])
+
 def handleIO (op : String) (args : List String) (impl : Option (List String)) : IO (String × Option Bool) := do
   match op, args with
   | "OPEN", [path, t, d, n, order, vl] =>
@@ -147,6 +255,63 @@ def handleIO (op : String) (args : List String) (impl : Option (List String)) : 
       let pv := impl.map fun i => PredHdr.c06_ok Sha.zckHash g (i == ["OK"])
       return (out, pv)
     | _, _ => return ("BADOP", none)
+  | "READSEQ", [path, sizes, ztab] =>
+    let f ← readFile path
+    let tab ← loadZtab ztab
+    let D := mkDecomp tab
+    match parseNatList sizes with
+    | some sz =>
+      match Header.openFile Sha.zckHash f with
+      | .ok h =>
+        let (rets, out, c) := runReadSeq Sha.zckHash D f sz.toArray 100000 (Reader.openCtx h) 0 0 #[] []
+        let cl := Reader.close Sha.zckHash c
+        let res := s!"OK rets={",".intercalate (rets.toList.map toString)} n={out.length} out={PredRead.showBytes out} close={if cl then 1 else 0}"
+        let pv := impl.map fun i =>
+          match i with
+          | "OK" :: rest =>
+            match (kv rest "rets").bind parseIntList, (kv rest "n").bind (·.toNat?), kv rest "out", kv rest "close" with
+            | some r, some n, some o, some cls =>
+              PredRead.c02_ok Sha.zckHash D f r o (cls == "1") && PredRead.c15_ok Sha.zckHash D f n o
+            | _, _, _, _ => false
+          | ["ERR", "open"] => true
+          | _ => false
+        return (res, pv)
+      | _ => return ("ERR open", impl.map fun i => i == ["ERR", "open"] || (Format.parse Sha.zckHash f).isNone)
+    | none => return ("BADOP", none)
+  | "CHUNKSEQ", [path, reqs, ztab] =>
+    let f ← readFile path
+    let tab ← loadZtab ztab
+    let D := mkDecomp tab
+    match Header.openFile Sha.zckHash f with
+    | .ok h =>
+      let mut c := Reader.openCtx h
+      let mut outs : Array String := #[]
+      let mut ok := true
+      let mut itoks := (impl.getD []).drop 1
+      for t in reqs.splitOn "," do
+        let comp := t.endsWith "c"
+        let k := ((if comp then (t.dropEnd 1).toString else t).toNat?).getD 0
+        let it := itoks.head?.getD ""
+        itoks := itoks.drop 1
+        match Reader.chunkAt c k with
+        | none => outs := outs.push "nochunk"
+        | some ch =>
+          let want := if comp then ch.compLen else ch.len
+          let (r, c') := if comp then Reader.getChunkCompData f c k want else Reader.getChunkData Sha.zckHash D f c k want
+          c := c'
+          outs := outs.push s!"{r.ret}:{if r.ret > 0 then PredRead.showBytes r.bytes else "-"}"
+          match it.splitOn ":" with
+          | rs :: rest =>
+            match rs.toInt? with
+            | some ri => ok := ok && PredRead.c14_ok Sha.zckHash D f k comp ri (":".intercalate rest)
+            | none => ok := false
+          | _ => ok := false
+      return ("OK " ++ " ".intercalate outs.toList, impl.map fun _ => ok)
+    | _ => return ("ERR open", impl.map fun _ => false)
+  | "SCAN", [path, ops, ztab] =>
+    let f ← readFile path
+    let tab ← loadZtab ztab
+    return runScan Sha.zckHash (mkDecomp tab) f ops.toList impl
   | "META", [path] =>
     let f ← readFile path
     let m := Header.openFile Sha.zckHash f
